@@ -1,6 +1,6 @@
 ------------------------------ MODULE CoPdoGen ------------------------------
 EXTENDS CoPdo, Json, SequencesExt
-CONSTANTS Letters, ProbeLetters, Walk, WalkLen, TC0, RC0, Sync0, V0, ObjOrder, CfgName
+CONSTANTS Letters, ProbeLetters, Walk, WalkLen, TC0, RC0, Sync0, V0, ObjOrder, CfgName, PoolN
 VARIABLES p, hist, prev, gh
 vars == <<p, hist, prev, gh>>
 StepRec(ev, x) == [e |-> ev, x |-> x]
@@ -41,6 +41,12 @@ CfgValue(pp, l) ==      \* stored value of a configuration object, for read-back
        [] l[2] = "map"  -> [idx |-> mbase + k - 1, sub |-> l[5], bytes |-> c.m[l[5]]]
        [] l[2] = "sid"  -> [idx |-> 4101, sub |-> 0, bytes |-> SyncIdBytes(pp)]
        [] l[2] = "scyc" -> [idx |-> 4102, sub |-> 0, bytes |-> LE(pp.scycus, 3) \o <<0>>]
+\* mode INIT -> timers of the stack cleared -> NMT / SDO / SYNC re-initialised -> SYNC object re-read -> boot-up (PRE-OPERATIONAL)
+ResetCom(pp) == LET a == [pp EXCEPT !.mode = PREOP, !.td = [k \in 1..NT |-> Dyn0], !.sprod = 0]            \* COTmrClear + SYNC timer deleted
+                    b == [a EXCEPT !.ta = [k \in 1..NT |-> OffT], !.ra = [k \in 1..NR |-> OffR], !.rb = [k \in 1..NR |-> <<>>]]   \* PDO tables are rebuilt on OPERATIONAL
+                IN [b EXCEPT !.sprod = IF b.sgen THEN b.scyc ELSE 0]                                          \* 1005h initialisation re-run
+ArmedP(pp) == (IF pp.sprod > 0 THEN 1 ELSE 0)
+              + (IF pp.mode = OPER THEN Cardinality({k \in 1..NT : pp.td[k].inhRem > 0}) + Cardinality({k \in 1..NT : pp.td[k].evRem > 0}) ELSE 0)
 Apply(pp, l) ==
   CASE l[1] = "nmt" -> LET r == SetMode(pp, IF l[2] = 1 THEN OPER ELSE IF l[2] = 2 THEN STOP ELSE PREOP) IN
                        [ev |-> <<"rx", 0, 2, l[2], NodeId, 0, 0, 0, 0, 0, 0>>, p |-> r.p, x |-> r.out]
@@ -69,9 +75,18 @@ Apply(pp, l) ==
                              x |-> c.w.out \o <<IF c.w.code = <<>> THEN WrOk(c.idx, c.sub) ELSE Abort(c.idx, c.sub, c.w.code)>>]
     [] l[1] = "rdcfg" -> LET c == CfgValue(pp, l) IN
                          [ev |-> RdFrame(c.idx, c.sub), p |-> pp, x |-> IF SdoOK(pp.mode) THEN <<RdResp(c.idx, c.sub, c.bytes)>> ELSE <<CanRx(SdoRx)>>]
+    \* NMT reset communication / node: written as the sequence of sub-operations of CONmtReset
+    [] l[1] = "reset" -> [ev |-> <<"rx", 0, 2, l[2], NodeId, 0, 0, 0, 0, 0, 0>>, p |-> ResetCom(pp), x |-> << <<"free">> >>]
+    [] l[1] = "pool" -> [ev |-> <<"pool">>, p |-> pp, x |-> << <<"acts", PoolN - ArmedP(pp)>> >>]
     [] l[1] = "rd" -> LET o == l[2] IN
                       [ev |-> RdFrame(Objs[o].idx, Objs[o].sub), p |-> pp, x |-> IF SdoOK(pp.mode) THEN <<RdResp(Objs[o].idx, Objs[o].sub, pp.v[o])>> ELSE <<CanRx(SdoRx)>>]
+P0 == [mode |-> PREOP, v |-> V0, tc |-> TC0, rc |-> RC0, ta |-> [k \in 1..NT |-> OffT], ra |-> [k \in 1..NR |-> OffR],
+       td |-> [k \in 1..NT |-> Dyn0], rb |-> [k \in 1..NR |-> <<>>],
+       sid |-> Sync0[1], sgen |-> Sync0[2], scyc |-> Sync0[3] \div 1000, scycus |-> Sync0[3], sprod |-> IF Sync0[2] THEN Sync0[3] \div 1000 ELSE 0]
 View == p
+\* C20: reset = fresh start with the current dictionary values (PDOs inactive until OPERATIONAL, SYNC as 1005h/1006h say)
+FreshFromP(p0) == [P0 EXCEPT !.v = p0.v, !.tc = p0.tc, !.rc = p0.rc, !.sid = p0.sid, !.sgen = p0.sgen, !.scyc = p0.scyc, !.scycus = p0.scycus,
+                             !.sprod = IF p0.sgen THEN p0.scyc ELSE 0]
 Rec(step) == /\ hist' = (IF Walk THEN Append(hist, step) ELSE <<step>>)
              /\ prev' = View
 \* ---- claims on the reference ----
@@ -88,12 +103,10 @@ StepOk(p0, l, a) ==
   \* C13: objects change only in OPERATIONAL through RPDO / SYNC
   /\ (l[1] \in {"rpdo", "sync"} /\ p0.mode # OPER => a.p.v = p0.v)
   \* C12: no transmission while the inhibit time runs
-  /\ \A k \in 1..NT : (p0.mode = OPER /\ p0.ta[k].valid /\ p0.td[k].inhRem > 1 /\ l[1] \notin {"cfg", "nmt"}) => PdoFrames(a.x, p0.ta[k].id) = {}
+  /\ \A k \in 1..NT : (p0.mode = OPER /\ p0.ta[k].valid /\ p0.td[k].inhRem > 1 /\ l[1] \notin {"cfg", "nmt", "reset"}) => PdoFrames(a.x, p0.ta[k].id) = {}
+  /\ (l[1] = "reset" => a.p = FreshFromP(p0))
 Do(l) == LET a == Apply(p, l) IN
          /\ p' = a.p /\ gh' = StepOk(p, l, a) /\ Rec(StepRec(a.ev, a.x))
-P0 == [mode |-> PREOP, v |-> V0, tc |-> TC0, rc |-> RC0, ta |-> [k \in 1..NT |-> OffT], ra |-> [k \in 1..NR |-> OffR],
-       td |-> [k \in 1..NT |-> Dyn0], rb |-> [k \in 1..NR |-> <<>>],
-       sid |-> Sync0[1], sgen |-> Sync0[2], scyc |-> Sync0[3] \div 1000, scycus |-> Sync0[3], sprod |-> IF Sync0[2] THEN Sync0[3] \div 1000 ELSE 0]
 Init == p = P0 /\ hist = <<>> /\ prev = <<>> /\ gh = TRUE
 Next == \E l \in Letters : Do(l)
 InvPdo == gh
